@@ -314,7 +314,7 @@ type loadPlan struct {
 	Shape   int   // bulk: 0 full, 1 partial, 2 extra, 3 empty map, 4 nil map, 5 partial with extra keys
 	Mask    uint64 // which requested keys a partial result contains
 	Extra   []int // extra keys volunteered
-	PanicOf int   // 0 error value, 1 string
+	PanicOf int   // 0 error value, 1 string, 2 the ErrNotFound value, 3 an error wrapping ErrNotFound
 	Nested  int   // 1: Compute answering CancelOp, 2: ComputeIfAbsent answering cancel, run on the key from inside the loader
 	Adv     int64 // the loader takes this long on the cache's clock
 }
@@ -614,8 +614,13 @@ func (e *Env) single(kind, key, old int) (int, error) {
 		return v, fmt.Errorf("wrapped: %w", otter.ErrNotFound)
 	default:
 		e.add(Event{Kind: EvLoadExit, Sub: kind, Key: key, Out: OutPanic})
-		if p.PanicOf == 0 {
+		switch p.PanicOf {
+		case 0:
 			panic(panicVal{"loader panic"})
+		case 2:
+			panic(otter.ErrNotFound) // a panic is a failure whatever its value is: it is not a "not found" answer
+		case 3:
+			panic(fmt.Errorf("must: %w", otter.ErrNotFound))
 		}
 		panic("loader panic string")
 	}
@@ -631,8 +636,13 @@ func (e *Env) bulk(kind int, keys, olds []int) (map[int]int, error) {
 	switch p.Out {
 	case OutPanic:
 		e.add(Event{Kind: EvLoadExit, Sub: kind, Out: OutPanic})
-		if p.PanicOf == 0 {
+		switch p.PanicOf {
+		case 0:
 			panic(panicVal{"bulk loader panic"})
+		case 2:
+			panic(otter.ErrNotFound)
+		case 3:
+			panic(fmt.Errorf("must: %w", otter.ErrNotFound))
 		}
 		panic("bulk loader panic string")
 	case OutError:
